@@ -11,7 +11,7 @@ from pta.pat import find, has
 from pta.order import scan
 from pta.rules.common import CGM, COPY, PREPROC, TOIL, concrete_kinds, short
 from pta.rules.c02 import high_level_kinds
-from pta.tables.order_reviewed import REVIEWED
+from pta.tables.order_reviewed import Reviewed
 
 LC = "pytato.target.loopy.codegen"
 IEGM = LC + ".InlinedExpressionGenMapper"
@@ -270,13 +270,14 @@ def r_order(c):
     if len(sites) < 10:
         raise AnalysisError(f"only {len(sites)} unordered iteration sites in code "
                             "generation modules (floor 10)")
+    rv = Reviewed()
     for s in sites:
         where = m.loc(m.module_of(s.node), s.node)
         inst = s.stmt_text[:120]
         if s.discharged:
             c.ok("R01-ORDER", s.func, inst, where, s.discharged)
-        elif s.key in REVIEWED:
-            c.exempt("R01-ORDER", s.func, inst, where, REVIEWED[s.key])
+        elif (why_ := rv.lookup(s)) is not None:
+            c.exempt("R01-ORDER", s.func, inst, where, why_)
         else:
             c.violation("R01-ORDER", s.func, inst, where,
                         f"code generation iterates `{m.frag(s.iter_node, 60)}` ({s.why}) "
